@@ -174,24 +174,34 @@ impl G {
                 })]
             }
             6..=9 => {
-                let body = self.body(&tag("f"), &n.kids);
+                let mut body = self.body(&tag("f"), &n.kids);
                 let mut pre = vec![];
+                let mut post_items = vec![];
                 let (from, to, step) = match n.kind {
                     6 => (num(1), num(2), None),
                     7 => (num(1), num(4), Some(num(2))),
                     8 => (num(2), num(1), Some(num(-1))),
                     _ => {
-                        // run-time step: negative for odd construct numbers
+                        // run-time step and limit in variables of the counter's type: negative for odd construct
+                        // numbers. The body changes both: limit and step are evaluated once, when the loop is entered.
                         let sv = format!("S{}%", id);
+                        let lv = format!("L{}%", id);
                         let neg = id % 2 == 1;
                         pre.push(self.b.assign(var(&sv), num(if neg { -2 } else { 2 })));
-                        if neg { (num(4), num(1), Some(var(&sv))) } else { (num(1), num(4), Some(var(&sv))) }
+                        pre.push(self.b.assign(var(&lv), num(if neg { 1 } else { 4 })));
+                        body.push(self.b.assign(var(&sv), bin(BinOp::Mul, var(&sv), num(2))));
+                        body.push(self.b.assign(var(&lv), bin(BinOp::Add, var(&lv), var(&sv))));
+                        post_items.push(var(&sv));
+                        post_items.push(var(&lv));
+                        if neg { (num(4), var(&lv), Some(var(&sv))) } else { (num(1), var(&lv), Some(var(&sv))) }
                     }
                 };
                 let f = self.b.s(K::For { var: var(&c), from, to, step, body, next_var: id % 2 == 0 });
                 pre.push(f);
                 // the counter after the loop is part of the semantics
-                pre.push(self.b.print(vec![st(&tag("x")), var(&c)]));
+                let mut items = vec![st(&tag("x")), var(&c)];
+                items.extend(post_items);
+                pre.push(self.b.print(items));
                 pre
             }
             _ => {
